@@ -3,9 +3,11 @@ NEXT GenNext
 CONSTANTS
   Goroutines = {2, 8, 32, 64}
   Calls = {3000}
-  Reps = {1, 2}
+  Reps = {1}
   Shared = {0, 3}
   MixNames = {"create", "log", "balanced"}
+  OpndNames = {"mixed", "reuse"}
+  Caps = {1, 2, 3, 4, 5, 8, 9}
   Closers = {TRUE, FALSE}
 INVARIANT Emit
 CHECK_DEADLOCK FALSE
